@@ -3,11 +3,11 @@ CONSTANTS
   Class = "rdv"
   Ideal = FALSE
   KSet = {"n"}
-  NW <- W22
-  NR <- W22
-  NC <- W10
+  NW <- W11
+  NR <- W11
+  NC <- W21
   WMax = 3
   CMax = 2
-INVARIANTS TypeOK Fifo NoSpuriousError NoLoss RestClose RestRead RestWrite RestNoLoss ClosedStopsReads ClosedStopsWrites
+INVARIANTS TypeOK Fifo NoSpuriousError NoLoss RestAll ClosedStopsReads ClosedStopsWrites
 PROPERTIES ClosedForGood
 CHECK_DEADLOCK FALSE
